@@ -416,6 +416,9 @@ def multi_cases(rng: Rng, tier):
                 kw["num_classes"] = S
         else:
             kw["target"] = it([v for _ in range(S) for v in labels01(rng, n)], shape=(S, n)).T.contiguous()
+            if rng.random() < 0.3:
+                # label masks arrive as bool / uint8 / int32 in practice: counts must not be held in the label dtype
+                kw["target"] = kw["target"].to(rng.choice([torch.bool, torch.uint8, torch.int32]))
             if rng.random() < 0.85:
                 kw["num_labels"] = S
         kw["threshold"] = thr
